@@ -18,7 +18,7 @@ import (
 //	1 2    call f1 / f2
 //	T{..}{..}  try { body } catch { handler }
 //	U{..}      try { body }            (no catch clause)
-//	L{..}      for i := 0; i < 2; i++ { body }
+//	L{..}      for i := 0; i < 2; i++ { body }   (the body may be empty)
 //	?{..}      if i == 1 { body }      (only inside a loop; i of the innermost loop)
 //
 // The printer adds a marker at the start of every block and after every
@@ -255,7 +255,7 @@ func (p *Prog) valid(maxDepth int) bool {
 					return false
 				}
 			case 'L':
-				if len(s.Body) == 0 || !ok(s.Body, fn, true) {
+				if !ok(s.Body, fn, true) {
 					return false
 				}
 			case '?':
@@ -315,6 +315,11 @@ func (e *enumerator) nonTerminal(a int, c blockCtx) []string {
 		out := []string{"d", "r"}
 		for k := c.fn + 1; k < c.nf; k++ {
 			out = append(out, string(rune('0'+k)))
+		}
+
+		// the only compound with an empty body: a loop that just iterates
+		if c.depth > 0 {
+			out = append(out, "L{}")
 		}
 
 		return out
